@@ -103,12 +103,17 @@ class StatementSplitter:
         if unified == 'LOOP' and self._is_create and self._begin_depth > 0:
             return 1
 
+        # like END, these lower the level only where their openers raise it
         if unified == 'END CASE':
             self._in_case = max(0, self._in_case - 1)
-            return -1
+            if self._is_create and self._begin_depth > 0:
+                return -1
+            return 0
 
         if unified in ('END IF', 'END FOR', 'END WHILE', 'END LOOP'):
-            return -1
+            if self._is_create and self._begin_depth > 0:
+                return -1
+            return 0
 
         # Default
         return 0
